@@ -122,6 +122,57 @@ def run_variants(chk, n):
                       spec={"tag": a["err"] or tplgen.canon_real(a["out"], a["hash2name"])}, note=" || ".join(pl["source"]))
 
 
+def run_refill(chk, n):
+    """Directed: the *same* parsed {% component %} tag rendered several times (in a loop on the page, or in a loop inside
+    another component's template, where the instances are deferred) with fills that are produced conditionally — a
+    render of the tag without any fill before and after renders with fills (seeded/C01-4: per-tag memo of the
+    fill-discovery pass).  Lists hold falsy items, which the program generator never draws."""
+    lit, var = tplgen.lit, tplgen.var
+    progs = []
+    for i in range(n):
+        r = core.rng(PROP, "refill", i)
+        slot = r.choice(tplgen.SLOTS)
+        flags = [r.random() < 0.5 for _ in range(r.randint(2, 5))]
+        if i < 4:
+            flags = [[False, True, False, True], [True, False, True], [False, False, True], [False, True]][i]
+        items = [tplgen.sval(r.choice(tplgen.WORDS) if f else "") for f in flags]
+        is_default = r.random() < 0.3
+        inner = {"name": "c1", "data": [["a", {"kwarg": "a"}]],
+                 "template": [{"t": "text", "s": "["}, {"t": "out", "e": var("a")},
+                              {"t": "slot", "name": lit(slot), "default": is_default, "required": False, "data": [],
+                               "body": [{"t": "text", "s": "D"}]}, {"t": "text", "s": "]"}]}
+        fill = {"t": "fill", "name": lit(slot), "data": None, "dflt": None,
+                "body": [{"t": "text", "s": "F"}, {"t": "out", "e": var("x")}]}
+        shape = r.choice(["if", "if", "for-empty", "if-else-ws"])
+        if shape == "for-empty":
+            # a fill looped over a list that is empty for the falsy items (a string iterates over its characters)
+            body = [{"t": "for", "x": "ch", "e": var("x"), "body": [dict(fill, name=var("sn"))]}]
+            items = [tplgen.sval("k" if f else "") for f in flags]
+        elif shape == "if-else-ws":
+            body = [{"t": "if", "c": var("x"), "a": [fill], "b": [{"t": "text", "s": " "}]}]
+        else:
+            body = [{"t": "if", "c": var("x"), "a": [fill], "b": []}]
+        tag = {"t": "comp", "name": "c1", "kwargs": [["a", var("x")]], "only": False, "dyn": r.random() < 0.15, "body": body}
+        loop = {"t": "for", "x": "x", "e": var("fl"), "body": [tag, {"t": "text", "s": "|"}]}
+        ctx = [["fl", {"l": items}], ["sn", tplgen.sval(slot)]]
+        if r.random() < 0.5:
+            lib = [inner]
+            page = [loop]
+        else:
+            outer = {"name": "c0", "data": [["fl", {"kwarg": "fl"}], ["sn", {"kwarg": "sn"}]], "template": [{"t": "text", "s": "("}, loop, {"t": "text", "s": ")"}]}
+            lib = [outer, inner]
+            page = [{"t": "comp", "name": "c0", "kwargs": [["fl", var("fl")], ["sn", var("sn")]], "only": False, "dyn": False, "body": []}]
+        progs.append({"isolated": r.random() < 0.5, "lib": lib, "entry": {"page": page}, "ctx": ctx, "raise": None})
+        chk.branch(["refill:" + shape, "refill:" + ("page" if len(lib) == 1 else "nested")])
+    reps = rc.batch(progs)
+    for p, (rep, sp) in zip(progs, reps):
+        real = tplgen.run_real(p, limit=20.0)
+        chk.count("refill", 1, validated=1)
+        chk.errkind(real["err"] or "ok")
+        chk.nontrivial(("refill", real["out"] or real["err"]))
+        rc.classify(chk, "refill", p, real, rep, sp, REGIONS)
+
+
 def run(tier: str) -> int:
     chk = core.Check(PROP, tier, THEOREMS, "DESIGN.md §8 render pipeline / C01")
     chk.build_and_audit()
@@ -130,6 +181,7 @@ def run(tier: str) -> int:
     n = 600 if tier == "quick" else 12000
     run_programs(chk, n)
     run_variants(chk, n // 4)
+    run_refill(chk, 40 if tier == "quick" else 600)
     chk.assumptions += [
         "text alphabet excludes template and HTML metacharacters; values are str / list[str] / dict[str,str]",
         "component call graph acyclic except through fills; nesting depth <= 3 (quick)",
